@@ -258,3 +258,10 @@ Proof.
   intros Hm H. apply slice_sub in H. destruct H as (k & H & _). subst d.
   apply bytes_ok_sub. apply seg_of_ok. assumption.
 Qed.
+
+Lemma words_of_bytes_length : forall d, (8 * length (words_of_bytes d) <= length d + 7)%nat.
+Proof.
+  fix IH 1. intros d.
+  destruct d as [|b0 [|b1 [|b2 [|b3 [|b4 [|b5 [|b6 [|b7 r]]]]]]]]; cbn [words_of_bytes length]; try lia.
+  specialize (IH r). lia.
+Qed.
